@@ -140,6 +140,14 @@ def static_check(src, out, defs):
         for n in tree.body:
             if isinstance(n, ast.Expr) and isinstance(n.value, ast.Constant) and isinstance(n.value.value, str):
                 continue
+            if isinstance(n, (ast.Import, ast.ImportFrom)):
+                for a in n.names:
+                    nm_ = (a.asname or a.name).split(".")[0]
+                    if nm_ in seen:
+                        out.append("%s:%d: %s imported although already bound in this module" % (fname, n.lineno, nm_))
+                    seen.add(nm_)
+            if mod == "__init__" and isinstance(n, (ast.FunctionDef, ast.AsyncFunctionDef, ast.ClassDef)):
+                out.append("%s:%d: the package's __init__ defines %s (it may only import and list names)" % (fname, n.lineno, n.name))
             if check_imports(n, fname, out, siblings):
                 continue
             if isinstance(n, ast.If) and isinstance(n.test, ast.Name) and n.test.id == "TYPE_CHECKING" and not n.orelse:
@@ -235,6 +243,22 @@ def static_check(src, out, defs):
                         cnames[key] = kind
                         if m.name.startswith("__") and m.name.endswith("__") and (m.name in HOOKS or m.name not in ALLOWED_DUNDERS):
                             out.append("%s:%d: special method %s.%s" % (fname, m.lineno, n.name, m.name))
+                        if m.name == "__new__" and mod != "struct":
+                            # (struct.py's two constructors are checked word for word by the translator; nowhere else)
+                            out.append("%s:%d: %s.__new__ (only the tuple classes of struct.py may define it)" % (fname, m.lineno, n.name))
+                        if kind in ("getter", "setter") and (n.name, m.name) not in KNOWN_PROPERTIES:
+                            # a property is code that runs on an attribute access the translation renders as a field read
+                            out.append("%s:%d: property %s.%s is not one of the translated properties" % (fname, m.lineno, n.name, m.name))
+                        if m.name == "__repr__":
+                            check_repr(m, fname, n.name, out)
+                        if (n.name, m.name) in EXPECTED_DEFAULTS and kind == "method":
+                            a_ = m.args
+                            pos = a_.args[len(a_.args) - len(a_.defaults):]
+                            have = {p_.arg: ast.unparse(d_) for p_, d_ in zip(pos, a_.defaults)}
+                            have.update({p_.arg: ast.unparse(d_) for p_, d_ in zip(a_.kwonlyargs, a_.kw_defaults) if d_ is not None})
+                            if have != EXPECTED_DEFAULTS[(n.name, m.name)]:
+                                out.append("%s:%d: default arguments of %s.%s are %s, expected %s"
+                                           % (fname, m.lineno, n.name, m.name, have, EXPECTED_DEFAULTS[(n.name, m.name)]))
                         line = min([m.lineno] + [d.lineno for d in m.decorator_list])
                         defs.append((mod, n.name, m.name, line, kind))
                         check_body(m, fname, out)
@@ -246,7 +270,43 @@ def static_check(src, out, defs):
             out.append("%s:%d: module-level %s statement" % (fname, n.lineno, type(n).__name__))
 
 
+KNOWN_PROPERTIES = {("HeaderTable", "maxsize"), ("Encoder", "header_table_size"), ("Decoder", "header_table_size")}
+# public entry points: the default values of their parameters (the model and the runner always pass them explicitly)
+EXPECTED_DEFAULTS = {
+    ("Decoder", "decode"): {"raw": "False"}, ("Encoder", "encode"): {"huffman": "True"},
+    ("Decoder", "__init__"): {"max_header_list_size": "DEFAULT_MAX_HEADER_LIST_SIZE"},
+    ("HeaderTable", "__init__"): {}, ("Encoder", "__init__"): {},
+}
+
+
+def check_repr(fd, fname, cname, out):
+    """__repr__ is not translated and can run from translated code (an object formatted into a message, a log line under
+    a DEBUG handler): it must be a single `return` of an expression that only READS -- constants, self and its attributes,
+    % / + / tuples / f-string parts, and the builtins repr str list tuple len type"""
+    body = [st for st in fd.body if not (isinstance(st, ast.Expr) and isinstance(st.value, ast.Constant))]
+    if len(body) != 1 or not isinstance(body[0], ast.Return) or body[0].value is None:
+        out.append("%s:%d: %s.__repr__ is more than one return statement" % (fname, fd.lineno, cname))
+        return
+    for x in ast.walk(body[0].value):
+        if isinstance(x, (ast.Constant, ast.Name, ast.Attribute, ast.BinOp, ast.Tuple, ast.List, ast.JoinedStr, ast.FormattedValue,
+                          ast.Load, ast.operator, ast.Mod, ast.Add)):
+            if isinstance(x, ast.Name) and x.id not in ("self", "repr", "str", "list", "tuple", "len", "type"):
+                out.append("%s:%d: %s.__repr__ uses the name %s" % (fname, x.lineno, cname, x.id))
+            continue
+        if isinstance(x, ast.Call) and isinstance(x.func, ast.Name) and x.func.id in ("repr", "str", "list", "tuple", "len", "type") \
+                and not x.keywords:
+            continue
+        out.append("%s:%d: %s.__repr__ contains a %s (only reads are allowed there)" % (fname, getattr(x, "lineno", fd.lineno), cname, type(x).__name__))
+
+
 def check_body(fd, fname, out):
+    for s in ast.walk(fd):
+        # a function object stored into an attribute or an item would run in place of translated code
+        if isinstance(s, (ast.Assign, ast.AnnAssign, ast.AugAssign)):
+            tg = s.targets if isinstance(s, ast.Assign) else [s.target]
+            if any(isinstance(t, (ast.Attribute, ast.Subscript)) for t in tg) and s.value is not None \
+                    and any(isinstance(v, ast.Lambda) for v in ast.walk(s.value)):
+                out.append("%s:%d: a lambda is stored into an attribute or item in %s" % (fname, s.lineno, fd.name))
     for s in ast.walk(fd):
         if isinstance(s, (ast.FunctionDef, ast.AsyncFunctionDef, ast.ClassDef, ast.Lambda)) and s is not fd:
             if not isinstance(s, ast.Lambda):
